@@ -1055,6 +1055,9 @@ func replay(path string) {
 		Input map[string]interface{} `json:"input"`
 	}
 	vh.Must(json.Unmarshal(raw, &rp))
+	if replayWithHistory(rp.Key, rp.Input) {
+		return
+	}
 	valid, _ := rp.Input["valid"].(string)
 	corrupted, _ := rp.Input["corrupted"].(string)
 	code, _ := rp.Input["code"].(string)
@@ -1168,6 +1171,11 @@ func main() {
 		}
 		cashCase(s, o)
 	}
+
+	// --- review round 2: cross-prefix cosets, history dependence, DecodeAddress under both labels
+	historyFamilies(rng)
+	decodeAddressFamilies(rng)
+	exploitAnomalies(rng)
 
 	// --- bech32: random 1..4 substitutions
 	r = rng.Fork("bech-subst")
